@@ -156,12 +156,12 @@ let () =
       | ["B"; id; hex; o1; o2] ->
         let bs = bytes_of_hex hex in
         let m1 =
-          match box_r pair_leaves bs with
+          match box_r top_leaves bs with
           | (Ok BEof, _) -> "eof"
           | (Ok (BBox t), s) -> Printf.sprintf "ok:%s:%d" (dump t) (int_of_n (ipos s))
           | (r, _) -> cls_of r in
         let m2 =
-          match box_sr pair_leaves bs with
+          match box_sr top_leaves bs with
           | (Ok t, s) -> Printf.sprintf "ok:%s:%d:%s" (dump t) (int_of_z (rpos (sr s))) (b01 (rerr (sr s)))
           | (r, _) -> cls_of r in
         if m1 = o1 && m2 = o2 then Printf.printf "OK %s\n" id
@@ -196,7 +196,7 @@ let () =
         let one r o = match r with
           | Ok ts -> let m = "ok:" ^ top_obs ts in if m = o || (o = "err" && n_mdat ts >= 2) then None else Some m
           | r -> let m = cls_of r in if m = o then None else Some m in
-        (match one (fst (file_r pair_leaves bs)) o1, one (fst (file_sr pair_leaves bs)) o2 with
+        (match one (fst (file_r top_leaves bs)) o1, one (fst (file_sr top_leaves bs)) o2 with
          | None, None -> Printf.printf "OK %s\n" id
          | a, b -> Printf.printf "MISMATCH %s file-boxes model_r=%s model_sr=%s\n" id
                      (match a with None -> "same" | Some m -> m) (match b with None -> "same" | Some m -> m))
